@@ -19,8 +19,31 @@ def analyse(spec):
   """Everything C06 needs from one frame."""
   from scipy import stats
   out = {'fails': [], 'known': []}
-  m = tbrfam.fit_tbr(spec)
-  loc, scale, dfree = tbrfam.posterior(m)
+  r2 = random.Random(spec['seed'] * 23 + 11)
+  history = None
+  if r2.random() < 0.5:          # the TBR object analysed another experiment (same or other number of test days) before
+    history = tbrfam.gen_frame(spec['seed'] + 131, cooldown=spec['n_cool'] > 0)
+    if r2.random() < 0.6:
+      history['n_test_keep'] = True
+      # same number of analysed days as the experiment under test
+      h = tbrfam.gen_frame(spec['seed'] + 131, cooldown=spec['n_cool'] > 0)
+      for k in ('n_pre', 'n_test', 'n_cool'):
+        h[k] = spec[k]
+      nd = spec['n_pre'] + spec['n_test'] + spec['n_cool']
+      for g in h['geos']:
+        g['response'] = (g['response'] * (nd // len(g['response']) + 1))[:nd]
+        g['cost'] = (g['cost'] * (nd // len(g['cost']) + 1))[:nd]
+      history = h
+  out['reused'] = history is not None
+  try:
+    m = tbrfam.fit_tbr(spec, history=history)
+    loc, scale, dfree = tbrfam.posterior(m)
+  except Exception as e:
+    if history is None:
+      raise
+    out['fails'].append('re-fitting a TBR object that analysed another experiment before raised %s: %s' % (type(e).__name__, str(e)[:120]))
+    m = tbrfam.fit_tbr(spec)
+    loc, scale, dfree = tbrfam.posterior(m)
   pre, test, cool = tbrfam.totals(spec)
   out['posterior'] = (loc, scale, dfree)
   if dfree != spec['n_pre'] - 2:
@@ -151,12 +174,13 @@ def run(tier):
                   {'spec_seed': owners[bad[0]]})
   ck.sample({'seed': res[0][0]['seed'], 'n_pre': res[0][0]['n_pre'], 'n_test': res[0][0]['n_test'], 'n_cool': res[0][0]['n_cool'],
              'geos': [(g['id'], g['group']) for g in res[0][0]['geos']]})
-  ck.cov['rule'] = ('experiment frames with 1-4 geos per group, 5-40 pre-period dates, 3-14 test dates, optional cooldown; each frame is '
+  ck.cov['rule'] = ('experiment frames with 1-4 geos per group, 5-40 pre-period dates, 3-14 test dates, optional cooldown, on a fresh TBR object or (half of the frames) one that fitted and reported another experiment before; each frame is '
                     'analysed as generated, row-shuffled, with each group split over more geos and with an unassigned geo added; '
                     'summaries for 4 random (level, tails, threshold, rescale) settings incl. levels below 1/2, report=all; the '
                     'posterior location / scale of every analysed day is compared with the exact rational model; the design-side '
                     'tbrfit is compared with the analysis. non-trivial: every frame')
   ck.cov['correspondence'] = {'frames_model_vs_impl': len(terms), 'disagreements': len(bad)}
+  ck.cov['distribution'] = {'reused_object': sum(1 for _, o in res if o.get('reused')), 'fresh_object': sum(1 for _, o in res if o.get('reused') is False)}
   ck.cov['known_finding_observations'] = known
   ck.assumptions = ['n_pre >= 5 in the generated frames (n_pre >= 3 is required for the posterior to exist)']
   return ck.finish('proof', TRUSTED)
